@@ -126,6 +126,7 @@ class SimFS(object):
         try:
             t = self.run.clock.wall
             os.utime(path, (t, t))
+            os.utime(os.path.dirname(path), (t, t))    # directory listing caches key on this
         except OSError:
             pass
     def freeze(self, fault=None):
